@@ -1032,8 +1032,11 @@ func (ts *TestScript) exec(command string, args ...string) (stdout, stderr strin
 		}()
 		defer func() {
 			tty.Close()
-			ctrl.Close()
+			// Let the reader drain what the command wrote (it ends when the
+			// terminal's other side is gone) before closing ctrl, which
+			// interrupts the writer if the command never read its input.
 			<-doneR
+			ctrl.Close()
 			<-doneW
 			ts.ttyin = ""
 			ts.ttyout = ptyBuf.String()
